@@ -177,6 +177,7 @@ def r1_type_ladders(ctx):
 
 
 def r2_array_layout(ctx):
+    _no_param_mutation(ctx)
     for lang, f, cname in BACKENDS + [("bash", "export_bash.py", "ExportConfigBash")]:
         if lang == "cpp":
             c = ctx.repo.cls(CF + f, cname)
@@ -220,6 +221,34 @@ def r2_array_layout(ctx):
         ctx.check((has_order and desc) or reversed_dims, CF + "export_fortran.py", "ExportConfigFortran.parse",
                   "reshape of the row-major value list compensates Fortran's column-major fill", detail={"order_argument": has_order, "descending": desc, "reversed_dims": reversed_dims},
                   expected="reshape([...],[dims],order=[n,...,1])")
+
+
+def _no_param_mutation(ctx):
+    """Recursive array walkers receive the index prefix / shape accumulated so far from their caller: a walker that
+    changes such a parameter in place changes it for its caller and for every later sibling call as well."""
+    n = 0
+    for rel in ctx.repo.all_py("src/scinumtools/dip/config"):
+        mod = ctx.repo.module(rel)
+        for cname, c in mod.classes.items():
+            for mname, fn in methods(c).items():
+                rec = [x for x in ast.walk(fn) if isinstance(x, ast.Call) and isinstance(x.func, ast.Attribute) and x.func.attr == mname and norm(x.func.value) == "self"]
+                if not rec:
+                    continue
+                n += 1
+                params = {a.arg for a in fn.args.args[1:]}
+                rebound = set()
+                bad = []
+                for x in ast.walk(fn):
+                    if isinstance(x, ast.Call) and isinstance(x.func, ast.Attribute) and isinstance(x.func.value, ast.Name) and x.func.value.id in params \
+                            and x.func.attr in ("append", "extend", "insert", "pop", "remove", "sort", "reverse", "clear", "update", "setdefault", "popitem"):
+                        bad.append(norm(x))
+                    if isinstance(x, (ast.Subscript, ast.Attribute)) and isinstance(x.ctx, (ast.Store, ast.Del)) and isinstance(x.value, ast.Name) and x.value.id in params:
+                        bad.append(norm(x) + " = ...")
+                    if isinstance(x, ast.AugAssign) and isinstance(x.target, ast.Name) and x.target.id in params and isinstance(x.value, (ast.List, ast.ListComp)):
+                        bad.append(norm(x))
+                ctx.check(not bad, rel, f"{cname}.{mname}", "the recursive walker does not change its parameters in place (index prefix, values and shape belong to the caller)",
+                          detail=bad or None, expected="pass a new list to the recursive call (coord + [v])")
+    ctx.floor("recursive array walkers", n, 4)
 
 
 def r3_quoting(ctx):
